@@ -3,7 +3,7 @@
    [np s] is the state s with the plan replaced by NoFault. *)
 From Coq Require Import List NArith Bool Arith Lia.
 From UP Require Import Base.Chars Base.Atoms Model.Uri Model.Ip4 Model.Parse Model.Common Model.Compare
-  Model.Resolve Model.Shorten Model.Normalize Model.Mem Model.ParseM Model.OpsM Proofs.LedgerProofs.
+  Model.Resolve Model.Shorten Model.Normalize Model.Mem Model.ParseM Model.OpsM Proofs.LedgerProofs Proofs.LedgerOps Proofs.LedgerNormalize.
 Import ListNotations.
 
 Definition np (s : mstate) : mstate :=
@@ -186,3 +186,348 @@ Qed.
 Theorem parse_m_transparent t s : clean s (snd (parse_m t s)) ->
   parse_m t (np s) = (fst (parse_m t s), np (snd (parse_m t s))).
 Proof. apply prun_m_TR. Qed.
+
+(* ---------------------------------------------------------------- Model/OpsM.v *)
+Ltac leaf :=
+  cbn [fst snd] in *; split; [mo|];
+  let C := fresh "C" in intros C;
+  repeat (match goal with T : clean _ _ -> _ = _ |- _ => rewrite T by cl end; cbv beta iota);
+  try reflexivity.
+
+Lemma TR_ret {A} (a : A) : TR (fun s => (a, s)).
+Proof. intros s. split; [apply mono_refl|reflexivity]. Qed.
+
+Lemma ro_free_seg_owned sg : releases_only (free_seg_owned sg).
+Proof. apply (ro_ext (free_seg true sg)); [reflexivity|apply ro_free_seg]. Qed.
+Lemma ro_drop_seg o sg : releases_only (drop_seg o sg).
+Proof. apply (ro_ext (free_seg o sg)); [reflexivity|apply ro_free_seg]. Qed.
+Lemma ro_free_nonempty t : releases_only (free_nonempty t).
+Proof. apply (ro_ext (free_text true t)); [reflexivity|apply ro_free_text]. Qed.
+Lemma ro_blank_seg o sg : releases_only (fun s => snd (blank_seg o sg s)) /\ forall s, fst (blank_seg o sg s) = blank sg.
+Proof.
+  split; [|reflexivity]. unfold blank_seg. cbn [snd]. destruct o; [|apply ro_id].
+  destruct (sg_text sg); [apply ro_id|]. destruct (sg_blk sg); [apply ro_free_blk|apply ro_bad_free].
+Qed.
+Lemma ro_fold_owned l : releases_only (fun s => fold_left (fun st x => free_seg_owned x st) l s).
+Proof. apply (ro_fold (fun st x => free_seg_owned x st)). intros a. apply ro_free_seg_owned. Qed.
+Lemma ro_fold_nodes l : releases_only (fun s => fold_left (fun st x => free_blk (sg_node x) st) l s).
+Proof. apply (ro_fold (fun st x => free_blk (sg_node x) st)). intros a. apply ro_free_blk. Qed.
+
+Section WithCsize.
+Variable csize : N.
+
+Lemma dup_text_TR t : TR (dup_text csize t).
+Proof.
+  intros s. unfold dup_text. destruct (t_val t) as [[|c r]|]; try apply (TR_ret (Some t)).
+  destruct (TR_alloc false (tlen (c :: r) * csize) s) as [M T]. destruct (alloc false (tlen (c :: r) * csize) s) as [[id|] s1]; leaf.
+Qed.
+
+Lemma range_owner_TR done bitv t : TR (range_owner csize done bitv t).
+Proof.
+  intros s. unfold range_owner. destruct (negb (N.land done bitv =? 0)%N); [apply (TR_ret (Some (t, done)))|].
+  destruct (t_val t) as [[|c r]|] eqn:EV; try apply (TR_ret (Some (t, done))).
+  destruct (dup_text_TR t s) as [M T]. destruct (dup_text csize t s) as [[t'|] s1]; leaf.
+Qed.
+
+Lemma own_segs_TR rest : forall acc, TR (own_segs csize acc rest).
+Proof.
+  induction rest as [|sg r IH]; intros acc s; cbn [own_segs]; [apply (TR_ret (Some (rev acc)))|].
+  destruct (sg_text sg) as [|c t] eqn:ET; [apply IH|].
+  destruct (TR_alloc false (tlen (c :: t) * csize) s) as [M T]. destruct (alloc false (tlen (c :: t) * csize) s) as [[id|] s1]; cbn [fst snd] in *.
+  - destruct (IH ({| sg_text := c :: t; sg_blk := Some id; sg_node := sg_node sg |} :: acc) s1) as [M2 T2].
+    split; [eapply mono_trans; eauto|]. intros C. rewrite T by cl. rewrite T2 by cl.
+    destruct (own_segs csize _ r s1). reflexivity.
+  - pose proof (ro_fold_owned (rev acc)) as G1. pose proof (ro_fold_nodes (sg :: r)) as G2.
+    pose proof (ro_comp _ _ G1 G2) as G. cbv beta in G. cbn [fst snd].
+    split; [eapply mono_trans; [exact M|apply (ro_mono _ _ G)]|]. intros C.
+    rewrite (T (clean_ro _ _ _ G M C)). rewrite (ro_np _ _ G). reflexivity.
+Qed.
+
+Lemma host_step_TR m done : TR (host_step_of csize m done).
+Proof.
+  intros s. unfold host_step_of. destruct (bitb done B_HOST); [apply (TR_ret (Some (m, done)))|].
+  destruct (t_val (m_ipFuture m)).
+  - destruct (range_owner_TR done B_HOST (m_ipFuture m) s) as [M T].
+    destruct (range_owner csize done B_HOST (m_ipFuture m) s) as [[[t' d']|] s1]; leaf.
+  - destruct (t_val (m_hostText m)); [|apply (TR_ret (Some (m, done)))].
+    destruct (range_owner_TR done B_HOST (m_hostText m) s) as [M T].
+    destruct (range_owner csize done B_HOST (m_hostText m) s) as [[[t' d']|] s1]; leaf.
+Qed.
+
+Lemma path_step_TR m done : TR (path_step_of csize m done).
+Proof.
+  intros s. unfold path_step_of. destruct (bitb done B_PATH); [apply (TR_ret (Some (m, done)))|].
+  destruct (own_segs_TR (m_segs m) [] s) as [M T]. destruct (own_segs csize [] (m_segs m) s) as [[segs|] s1]; leaf.
+Qed.
+
+Lemma make_owner_engine_TR m done : TR (make_owner_engine csize m done).
+Proof.
+  intros s. rewrite !make_owner_engine_eq.
+  destruct (range_owner_TR done B_SCHEME (m_scheme m) s) as [M1 T1].
+  destruct (range_owner csize done B_SCHEME (m_scheme m) s) as [[[t1 d1]|] s1]; [|leaf]. cbv zeta.
+  match goal with |- context [range_owner csize d1 B_USER ?tt s1] => destruct (range_owner_TR d1 B_USER tt s1) as [M2 T2];
+    destruct (range_owner csize d1 B_USER tt s1) as [[[t2 d2]|] s2]; [|leaf] end.
+  match goal with |- context [range_owner csize d2 B_QUERY ?tt s2] => destruct (range_owner_TR d2 B_QUERY tt s2) as [M3 T3];
+    destruct (range_owner csize d2 B_QUERY tt s2) as [[[t3 d3]|] s3]; [|leaf] end.
+  match goal with |- context [range_owner csize d3 B_FRAG ?tt s3] => destruct (range_owner_TR d3 B_FRAG tt s3) as [M4 T4];
+    destruct (range_owner csize d3 B_FRAG tt s3) as [[[t4 d4]|] s4]; [|leaf] end.
+  match goal with |- context [host_step_of csize ?mm d4 s4] => destruct (host_step_TR mm d4 s4) as [M5 T5];
+    destruct (host_step_of csize mm d4 s4) as [[[m5 d5]|] s5]; [|leaf] end.
+  destruct (path_step_TR m5 d5 s5) as [M6 T6]. destruct (path_step_of csize m5 d5 s5) as [[[m6 d6]|] s6]; [|leaf].
+  destruct (dup_text_TR (m_portText m6) s6) as [M7 T7]. destruct (dup_text csize (m_portText m6) s6) as [[t7|] s7]; leaf.
+Qed.
+
+(* uriPreventLeakage only releases *)
+Definition RO2 (f : muri * mstate -> muri * mstate) : Prop :=
+  forall m s, f (m, np s) = (fst (f (m, s)), np (snd (f (m, s))))
+              /\ ms_plan (snd (f (m, s))) = ms_plan s /\ ms_requests (snd (f (m, s))) = ms_requests s.
+Lemma RO2_comp f g : RO2 f -> RO2 g -> RO2 (fun ms => g (f ms)).
+Proof.
+  intros F G m s. destruct (F m s) as (a & b & c). rewrite a. destruct (f (m, s)) as [m1 s1]. cbn [fst snd] in *.
+  destruct (G m1 s1) as (d & e & f'). rewrite d. split; [reflexivity|]. split; congruence.
+Qed.
+Lemma RO2_of_ro (h : muri -> muri) (g : muri -> mstate -> mstate) : (forall m, releases_only (g m)) ->
+  RO2 (fun ms => (h (fst ms), g (fst ms) (snd ms))).
+Proof. intros G m s. cbn [fst snd]. destruct (G m s) as (a & b & c). rewrite a. auto. Qed.
+Lemma RO2_id : RO2 (fun ms => ms).
+Proof. intros m s. auto. Qed.
+Lemma RO2_ext f g : (forall ms, f ms = g ms) -> RO2 f -> RO2 g.
+Proof. intros E F m s. rewrite <- !E. apply F. Qed.
+
+Lemma pl_scheme_RO2 b : RO2 (pl_scheme b).
+Proof.
+  destruct b; [|apply (RO2_ext (fun ms => ms)); [intros [? ?]; reflexivity|apply RO2_id]].
+  apply (RO2_ext (fun ms => (set_m_scheme mt_none (fst ms), match t_blk (m_scheme (fst ms)) with Some b => free_blk b | None => bad_free end (snd ms)))).
+  - intros [m s]. cbn [fst snd pl_scheme]. destruct (t_blk (m_scheme m)); reflexivity.
+  - apply (RO2_of_ro (set_m_scheme mt_none) (fun m => match t_blk (m_scheme m) with Some b => free_blk b | None => bad_free end)).
+    intros m. destruct (t_blk (m_scheme m)); [apply ro_free_blk|apply ro_bad_free].
+Qed.
+Lemma pl_user_RO2 b : RO2 (pl_user b).
+Proof.
+  destruct b; [|apply (RO2_ext (fun ms => ms)); [intros [? ?]; reflexivity|apply RO2_id]].
+  apply (RO2_ext (fun ms => (set_m_userInfo mt_none (fst ms), free_nonempty (m_userInfo (fst ms)) (snd ms)))); [intros [m s]; reflexivity|].
+  apply (RO2_of_ro (set_m_userInfo mt_none) (fun m => free_nonempty (m_userInfo m))). intros m. apply ro_free_nonempty.
+Qed.
+Lemma pl_query_RO2 b : RO2 (pl_query b).
+Proof.
+  destruct b; [|apply (RO2_ext (fun ms => ms)); [intros [? ?]; reflexivity|apply RO2_id]].
+  apply (RO2_ext (fun ms => (set_m_query mt_none (fst ms), free_nonempty (m_query (fst ms)) (snd ms)))); [intros [m s]; reflexivity|].
+  apply (RO2_of_ro (set_m_query mt_none) (fun m => free_nonempty (m_query m))). intros m. apply ro_free_nonempty.
+Qed.
+Lemma pl_frag_RO2 b : RO2 (pl_frag b).
+Proof.
+  destruct b; [|apply (RO2_ext (fun ms => ms)); [intros [? ?]; reflexivity|apply RO2_id]].
+  apply (RO2_ext (fun ms => (set_m_fragment mt_none (fst ms), free_nonempty (m_fragment (fst ms)) (snd ms)))); [intros [m s]; reflexivity|].
+  apply (RO2_of_ro (set_m_fragment mt_none) (fun m => free_nonempty (m_fragment m))). intros m. apply ro_free_nonempty.
+Qed.
+Lemma pl_path_RO2 b : RO2 (pl_path b).
+Proof.
+  destruct b; [|apply (RO2_ext (fun ms => ms)); [intros [? ?]; reflexivity|apply RO2_id]].
+  apply (RO2_ext (fun ms => (set_m_segs [] (fst ms), fold_left (fun st sg => free_seg_owned sg st) (m_segs (fst ms)) (snd ms)))); [intros [m s]; reflexivity|].
+  apply (RO2_of_ro (set_m_segs []) (fun m s => fold_left (fun st sg => free_seg_owned sg st) (m_segs m) s)). intros m. apply ro_fold_owned.
+Qed.
+Lemma pl_host_RO2 b : RO2 (pl_host b).
+Proof.
+  destruct b; [|apply (RO2_ext (fun ms => ms)); [intros [? ?]; reflexivity|apply RO2_id]].
+  intros m s. unfold pl_host. destruct (t_val (m_ipFuture m)).
+  - cbn [fst snd]. destruct (t_blk (m_ipFuture m)).
+    + rewrite free_blk_np. destruct (ro_free_blk n s) as (_ & a & b). auto.
+    + auto.
+  - destruct (t_val (m_hostText m)); cbn [fst snd]; [|auto].
+    destruct (ro_free_nonempty (m_hostText m) s) as (a & b & c). rewrite a. auto.
+Qed.
+
+Lemma prevent_leakage_np m done s :
+  prevent_leakage m done (np s) = (fst (prevent_leakage m done s), np (snd (prevent_leakage m done s)))
+  /\ ms_plan (snd (prevent_leakage m done s)) = ms_plan s /\ ms_requests (snd (prevent_leakage m done s)) = ms_requests s.
+Proof.
+  rewrite !prevent_leakage_stages.
+  exact (RO2_comp _ _ (RO2_comp _ _ (RO2_comp _ _ (RO2_comp _ _ (RO2_comp _ _ (pl_scheme_RO2 _) (pl_user_RO2 _)) (pl_host_RO2 _)) (pl_path_RO2 _)) (pl_query_RO2 _)) (pl_frag_RO2 _) m s).
+Qed.
+
+Lemma prevent_leakage_TR m done : TR (prevent_leakage m done).
+Proof.
+  intros s. destruct (prevent_leakage_np m done s) as (a & b & c). split; [split; [exact b|lia]|]. intros _. exact a.
+Qed.
+
+Theorem make_owner_m_TR m : TR (fun s => make_owner_m csize m s).
+Proof.
+  intros s. unfold make_owner_m. destruct (m_owner m); [apply (TR_ret (URI_SUCCESS, m))|].
+  destruct (make_owner_engine_TR m 0 s) as [M T]. destruct (make_owner_engine csize m 0 s) as [[[[|] m'] d'] s1]; [leaf|].
+  destruct (prevent_leakage_TR m' d' s1) as [M2 T2]. cbn [fst snd] in *.
+  destruct (prevent_leakage m' d' s1) as [m'' s2] eqn:EP. cbn [fst snd] in *. split; [mo|]. intros C.
+  rewrite T by cl. rewrite T2 by cl. reflexivity.
+Qed.
+
+(* ---------------------------------------------------------------- dot segments *)
+Lemma TR_ro {A} (a : A) g : releases_only g -> TR (fun s => (a, g s)).
+Proof. intros G s. cbn [fst snd]. split; [apply (ro_mono _ _ G)|]. intros _. rewrite (ro_np _ _ G). reflexivity. Qed.
+Lemma TR_pre {A} (f : mstate -> A * mstate) g : TR f -> releases_only g -> TR (fun s => f (g s)).
+Proof.
+  intros F G s. destruct (F (g s)) as [M T]. destruct (G s) as (a & b & c). split; [destruct M; split; [congruence|lia]|].
+  intros C. rewrite a. apply T. unfold clean in *. intros n Hn. rewrite b. apply C. lia.
+Qed.
+
+Definition bsnd (o : bool) (w : mseg) : mstate -> mstate := fun s => snd (blank_seg o w s).
+Lemma blank_seg_eta o w s : blank_seg o w s = (blank w, bsnd o w s).
+Proof. reflexivity. Qed.
+Lemma ro_bsnd o w : releases_only (bsnd o w).
+Proof. apply ro_blank_seg. Qed.
+
+Lemma rds_walk_m_TR relative host abs owned rest : forall kept, TR (rds_walk_m relative host abs owned kept rest).
+Proof.
+  induction rest as [|w nxt IH]; intros kept s; cbn [rds_walk_m]; [apply (TR_ret (true, rev kept))|].
+  destruct (seg_dot (sg_text w)).
+  - destruct (relative && match kept with [] => true | _ :: _ => false end
+              && match nxt with [] => false | n1 :: _ => has_colon (sg_text n1) end); [apply IH|].
+    destruct nxt as [|n1 nr].
+    + destruct kept as [|k1 kr].
+      * destruct host.
+        -- rewrite !blank_seg_eta. apply (TR_ro (true, [blank w]) _ (ro_bsnd owned w)).
+        -- apply (TR_ro (true, []) _ (ro_drop_seg owned w)).
+      * rewrite !blank_seg_eta. apply (TR_ro (true, rev (blank w :: k1 :: kr)) _ (ro_bsnd owned w)).
+    + apply (TR_pre _ _ (IH kept) (ro_drop_seg owned w)).
+  - destruct (seg_dotdot (sg_text w)); [|apply IH].
+    destruct (relative && match kept with [] => true | p :: _ => seg_dotdot (sg_text p) end); [apply IH|].
+    destruct kept as [|p [|pp kk]].
+    + destruct nxt as [|n1 nr].
+      * destruct abs.
+        -- apply (TR_ro (true, []) _ (ro_drop_seg owned w)).
+        -- rewrite !blank_seg_eta. apply (TR_ro (true, [blank w]) _ (ro_bsnd owned w)).
+      * apply (TR_pre _ _ (IH []) (ro_drop_seg owned w)).
+    + destruct nxt as [|n1 nr].
+      * destruct abs.
+        -- apply (TR_ro (true, []) _ (ro_comp _ _ (ro_drop_seg owned w) (ro_drop_seg owned p))).
+        -- rewrite !blank_seg_eta. apply (TR_ro (true, [blank w]) _ (ro_comp _ _ (ro_bsnd owned w) (ro_drop_seg owned p))).
+      * apply (TR_pre _ _ (IH []) (ro_comp _ _ (ro_drop_seg owned w) (ro_drop_seg owned p))).
+    + destruct nxt as [|n1 nr].
+      * pose proof (ro_comp _ _ (ro_drop_seg owned w) (ro_drop_seg owned p)) as G. cbv beta in G.
+        destruct (TR_alloc true SEG_SIZE s) as [M T]. destruct (alloc true SEG_SIZE s) as [[id|] s1]; cbn [fst snd] in *.
+        -- split; [eapply mono_trans; [exact M|apply (ro_mono _ _ G)]|]. intros C.
+           rewrite (T (clean_ro _ _ _ G M C)). rewrite (ro_np _ _ G). reflexivity.
+        -- split; [eapply mono_trans; [exact M|apply (ro_mono _ _ G)]|]. intros C.
+           rewrite (T (clean_ro _ _ _ G M C)). rewrite (ro_np _ _ G). reflexivity.
+      * apply (TR_pre _ _ (IH (pp :: kk)) (ro_comp _ _ (ro_drop_seg owned w) (ro_drop_seg owned p))).
+Qed.
+
+Lemma remove_dot_segments_m_TR relative owned m : TR (remove_dot_segments_m relative owned m).
+Proof.
+  intros s. unfold remove_dot_segments_m. destruct (m_segs m) as [|sg r]; [apply (TR_ret (true, m))|].
+  destruct (rds_walk_m_TR relative (m_host_set m) (m_abs m) owned (sg :: r) [] s) as [M T].
+  destruct (rds_walk_m relative (m_host_set m) (m_abs m) owned [] (sg :: r) s) as [[ok segs] s1]. leaf.
+Qed.
+
+Lemma fix_ambiguity_m_TR m : TR (fix_ambiguity_m m).
+Proof.
+  intros s. unfold fix_ambiguity_m. destruct (match m_abs m with true => _ | false => _ end); [|apply (TR_ret (true, m))].
+  destruct (TR_alloc false SEG_SIZE s) as [M T]. destruct (alloc false SEG_SIZE s) as [[id|] s1]; leaf.
+Qed.
+
+Lemma fix_empty_trail_m_TR m : TR (fix_empty_trail_m m).
+Proof.
+  intros s. unfold fix_empty_trail_m. destruct (negb (m_host_set m)); [|apply (TR_ret m)].
+  destruct (m_segs m) as [|sg [|sg2 r]]; try apply (TR_ret m). destruct (sg_text sg); [|apply (TR_ret m)].
+  apply (TR_ro (set_m_segs [] m) _ (ro_free_blk (sg_node sg))).
+Qed.
+
+(* ---------------------------------------------------------------- normalization *)
+Lemma norm_text_TR o f t : TR (norm_text csize o f t).
+Proof.
+  intros s. unfold norm_text. destruct (t_val t) as [x|]; [|apply (TR_ret (Some t))].
+  destruct o; [apply (TR_ret (Some {| t_val := Some (f x); t_blk := t_blk t |}))|].
+  destruct x as [|c r]; [apply (TR_ret (Some t))|].
+  destruct (TR_alloc false (tlen (c :: r) * csize) s) as [M T]. destruct (alloc false (tlen (c :: r) * csize) s) as [[id|] s1]; leaf.
+Qed.
+
+Lemma norm_segs_malloc_TR rest : forall acc, TR (norm_segs_malloc csize acc rest).
+Proof.
+  induction rest as [|sg r IH]; intros acc s; cbn [norm_segs_malloc]; [apply (TR_ret (true, rev acc))|].
+  destruct (sg_text sg) as [|c t] eqn:ET; [apply IH|].
+  destruct (TR_alloc false (tlen (c :: t) * csize) s) as [M T]. destruct (alloc false (tlen (c :: t) * csize) s) as [[id|] s1]; cbn [fst snd] in *.
+  - destruct (IH ({| sg_text := fix_pct (c :: t); sg_blk := Some id; sg_node := sg_node sg |} :: acc) s1) as [M2 T2].
+    split; [eapply mono_trans; eauto|]. intros C. rewrite T by cl. rewrite T2 by cl.
+    destruct (norm_segs_malloc csize _ r s1) as [[? ?] ?]. reflexivity.
+  - pose proof (ro_fold_owned (rev acc)) as G1. pose proof (ro_fold_nodes (sg :: r)) as G2.
+    pose proof (ro_comp _ _ G1 G2) as G. cbv beta in G. cbn [fst snd].
+    split; [eapply mono_trans; [exact M|apply (ro_mono _ _ G)]|]. intros C.
+    rewrite (T (clean_ro _ _ _ G M C)). rewrite (ro_np _ _ G). reflexivity.
+Qed.
+
+Lemma n_scheme_TR mask o m done : TR (n_scheme csize mask o m done).
+Proof.
+  intros s. unfold n_scheme. destruct (bit mask M_SCHEME && is_some (t_val (m_scheme m))); [|apply (TR_ret (Some (m, done)))].
+  destruct (norm_text_TR o lowercase (m_scheme m) s) as [M T]. destruct (norm_text csize o lowercase (m_scheme m) s) as [[t'|] s1]; leaf.
+Qed.
+Lemma n_user_TR mask o m done : TR (n_user csize mask o m done).
+Proof.
+  intros s. unfold n_user. destruct (bit mask M_USER_INFO && is_some (t_val (m_userInfo m))); [|apply (TR_ret (Some (m, done)))].
+  destruct (norm_text_TR o fix_pct (m_userInfo m) s) as [M T]. destruct (norm_text csize o fix_pct (m_userInfo m) s) as [[t'|] s1]; leaf.
+Qed.
+Lemma n_query_TR mask o m done : TR (n_query csize mask o m done).
+Proof.
+  intros s. unfold n_query. destruct (bit mask M_QUERY && is_some (t_val (m_query m))); [|apply (TR_ret (Some (m, done)))].
+  destruct (norm_text_TR o fix_pct (m_query m) s) as [M T]. destruct (norm_text csize o fix_pct (m_query m) s) as [[t'|] s1]; leaf.
+Qed.
+Lemma n_frag_TR mask o m done : TR (n_frag csize mask o m done).
+Proof.
+  intros s. unfold n_frag. destruct (bit mask M_FRAGMENT && is_some (t_val (m_fragment m))); [|apply (TR_ret (Some (m, done)))].
+  destruct (norm_text_TR o fix_pct (m_fragment m) s) as [M T]. destruct (norm_text csize o fix_pct (m_fragment m) s) as [[t'|] s1]; leaf.
+Qed.
+Lemma n_host_TR mask o m done : TR (n_host csize mask o m done).
+Proof.
+  intros s. unfold n_host. destruct (bit mask M_HOST); [|apply (TR_ret (Some (m, done)))].
+  destruct (t_val (m_ipFuture m)).
+  - destruct (norm_text_TR o lowercase (m_ipFuture m) s) as [M T]. destruct (norm_text csize o lowercase (m_ipFuture m) s) as [[t'|] s1]; leaf.
+  - destruct (t_val (m_hostText m)); [|apply (TR_ret (Some (m, done)))].
+    destruct (m_ip4 m); [apply (TR_ret (Some (m, done)))|]. destruct (m_ip6 m); [apply (TR_ret (Some (m, done)))|].
+    destruct (norm_text_TR o (fun x => lowercase_except_pct (fix_pct x)) (m_hostText m) s) as [M T].
+    destruct (norm_text csize o (fun x => lowercase_except_pct (fix_pct x)) (m_hostText m) s) as [[t'|] s1]; leaf.
+Qed.
+
+Lemma n_path_TR mask o m done : TR (n_path csize mask o m done).
+Proof.
+  intros s. unfold n_path. destruct (bit mask M_PATH); [|apply (TR_ret (Some (m, done), m, done))]. cbv zeta.
+  set (relative := negb (is_some (t_val (m_scheme m))) && negb (m_abs m) && negb (m_host_set m)). clearbody relative.
+  assert (Tail : forall m1 done1 owned, TR (fun s1 =>
+            let '(ok, m2, s2) := remove_dot_segments_m relative owned m1 s1 in
+            if ok then let '(m3, s3) := fix_empty_trail_m m2 s2 in (Some (m3, done1), m3, done1, s3)
+            else (@None (muri * N), m2, done1, s2))).
+  { intros m1 done1 owned s1. destruct (remove_dot_segments_m_TR relative owned m1 s1) as [M T].
+    destruct (remove_dot_segments_m relative owned m1 s1) as [[[|] m2] s2]; [|leaf].
+    destruct (fix_empty_trail_m_TR m2 s2) as [M2 T2]. destruct (fix_empty_trail_m m2 s2) as [m3 s3]. leaf. }
+  destruct o.
+  - apply Tail.
+  - destruct (norm_segs_malloc_TR (m_segs m) [] s) as [M T]. destruct (norm_segs_malloc csize [] (m_segs m) s) as [[[|] segs] s1]; [|leaf].
+    destruct (Tail (set_m_segs segs m) (N.lor done B_PATH) (false || negb (N.land (N.lor done B_PATH) B_PATH =? 0)%N) s1) as [M2 T2].
+    cbn [fst snd] in *. split; [eapply mono_trans; eauto|]. intros C. rewrite T by cl. cbv beta iota. rewrite T2 by cl.
+    destruct (remove_dot_segments_m relative _ (set_m_segs segs m) s1) as [[[|] ?] ?]; [|reflexivity].
+    destruct (fix_empty_trail_m _ _). reflexivity.
+Qed.
+
+Lemma n_fail_TR m done : TR (n_fail m done).
+Proof.
+  intros s. unfold n_fail. destruct (prevent_leakage_TR m done s) as [M T]. destruct (prevent_leakage m done s) as [m' s1]. leaf.
+Qed.
+
+Theorem normalize_m_TR mask m : TR (fun s => normalize_m csize mask m s).
+Proof.
+  intros s. rewrite !normalize_m_eq. destruct (mask =? 0)%N; [apply (TR_ret (URI_SUCCESS, m))|]. cbv zeta.
+  set (o := m_owner m). clearbody o.
+  destruct (n_scheme_TR mask o m 0%N s) as [M1 T1]. destruct (n_scheme csize mask o m 0 s) as [[[m1 d1]|] s1].
+  2:{ destruct (n_fail_TR m 0%N s1) as [Mf Tf]. destruct (n_fail m 0 s1) as [[rc mf] sf]. leaf. }
+  destruct (n_host_TR mask o m1 d1 s1) as [M2 T2]. destruct (n_host csize mask o m1 d1 s1) as [[[m2 d2]|] s2].
+  2:{ destruct (n_fail_TR m1 d1 s2) as [Mf Tf]. destruct (n_fail m1 d1 s2) as [[rc mf] sf]. leaf. }
+  destruct (n_user_TR mask o m2 d2 s2) as [M3 T3]. destruct (n_user csize mask o m2 d2 s2) as [[[m3 d3]|] s3].
+  2:{ destruct (n_fail_TR m2 d2 s3) as [Mf Tf]. destruct (n_fail m2 d2 s3) as [[rc mf] sf]. leaf. }
+  destruct (n_path_TR mask o m3 d3 s3) as [M4 T4]. destruct (n_path csize mask o m3 d3 s3) as [[[[[m4 d4]|] mf4] df4] s4].
+  2:{ destruct (n_fail_TR mf4 df4 s4) as [Mf Tf]. destruct (n_fail mf4 df4 s4) as [[rc mf] sf]. leaf. }
+  destruct (n_query_TR mask o m4 d4 s4) as [M5 T5]. destruct (n_query csize mask o m4 d4 s4) as [[[m5 d5]|] s5].
+  2:{ destruct (n_fail_TR m4 d4 s5) as [Mf Tf]. destruct (n_fail m4 d4 s5) as [[rc mf] sf]. leaf. }
+  destruct (n_frag_TR mask o m5 d5 s5) as [M6 T6]. destruct (n_frag csize mask o m5 d5 s5) as [[[m6 d6]|] s6].
+  2:{ destruct (n_fail_TR m5 d5 s6) as [Mf Tf]. destruct (n_fail m5 d5 s6) as [[rc mf] sf]. leaf. }
+  destruct o; [leaf|].
+  destruct (make_owner_engine_TR m6 d6 s6) as [M7 T7]. destruct (make_owner_engine csize m6 d6 s6) as [[[[|] m7] d7] s7]; [leaf|].
+  destruct (n_fail_TR m7 d7 s7) as [Mf Tf]. destruct (n_fail m7 d7 s7) as [[rc mf] sf]. leaf.
+Qed.
+
+End WithCsize.
